@@ -3,6 +3,9 @@
 // format the extracted model prints.  Output line: (id result (libm ...)).
 #include "sx.hpp"
 #include "hep/mc.hpp"
+#ifdef VERIF_MPI
+#include "hep/mc-mpi.hpp"
+#endif
 #include "hep/mc/generator_helper.hpp"
 #include <iostream>
 #include <sstream>
